@@ -10,7 +10,7 @@ import os, random, re
 from lib import core
 
 LEVEL = 'exploration'
-MIN_COUNTS = {'small_scope_histories': (1000000, 1000000), 'random_ops': (2000000, 100000000), 'e2e_probes': (5000, 100000)}
+MIN_COUNTS = {'small_scope_histories': (1000000, 1000000), 'random_ops': (2000000, 100000000), 'e2e_probes': (5000, 100000), 'same_capacity_purges': (50, 500)}
 
 
 def fnv(s):
@@ -153,6 +153,8 @@ def run(ctx):
     for i in range(nrand):
         s = ctx.seed * 131 + i
         jobs.append(('random', ['random', str(s), str(ops), str(4 + (i * 13) % 197)]))
+    for i in range(ctx.scale(12, 100)):
+        jobs.append(('churn', ['churn', str(ctx.seed * 17 + i), str([5, 10, 20, 40, 100, 300][i % 6]), str(ctx.scale(20000, 200000))]))
 
     def runjob(j):
         return j, core.sh([hh] + j[1], env=env, timeout=3000)
@@ -166,6 +168,10 @@ def run(ctx):
             ctx.evaluations += int(stats.get('histories', 0))
             ctx.extra['exhaustive_subspaces'] = ['all put/get/delete histories of length <= 7 over 3 keys sharing one probe path '
                                                  '(and length <= 6 for 4 other slot layouts incl. wrap-around)']
+        elif j[0] == 'churn':
+            ctx.count('churn_pairs', int(stats.get('pairs', 0)))
+            ctx.count('same_capacity_purges', int(stats.get('same_capacity_purges', 0)))
+            ctx.evaluations += int(stats.get('pairs', 0))
         else:
             ctx.count('random_ops', int(stats.get('ops', 0)))
             ctx.count('random_rehashes', int(stats.get('rehashes', 0)))
